@@ -183,6 +183,47 @@ def gen_cyclic(rng, kind):
         blk([((xs[i].idx, 0, w), e)])
     blk([((out.idx, 0, w), R(xs[rng.randrange(k)]))])
     expect = 'value'
+  elif kind == 'hostloop':
+    # a false loop whose signals live in two (or three) child components: the watched variables of the SCC then belong to
+    # several host components (the generated super-block compares them host by host).  Each child computes b = a ^ k; the
+    # parent feeds child j+1's `a` from child j's `b`, low half to high half, so the bit-level dependencies are acyclic.
+    w = rng.choice([2, 4, 8]); h = w // 2
+    nch = rng.randint(2, 3)
+    ins = [d.new_sig('', f'hin{q}', w, 'in') for q in range(4)]
+    blk([((out.idx, 0, out.width), R(i0) if rng.random() < 0.5 else ('b', 'xor', out.width, R(i0), R(i1)))])
+    out = d.new_sig('', 'out1', w, 'out')
+    top_reset = next(s_ for s_ in d.sigs if s_.comp == '' and s_.name == 'reset')
+    ch = []
+    for j in range(nch):
+      cn = f'c{j}'
+      d.comps[cn] = {}; d.comps['']['children'].append(cn)
+      r = d.new_sig(cn, 'reset', 1, 'in')
+      rtlgen.add_net(d, (r.idx, 0, 1), (top_reset.idx, 0, 1), implicit=True)
+      a = d.new_sig(cn, 'a', w, 'in'); k_ = d.new_sig(cn, 'k', w, 'in'); b = d.new_sig(cn, 'b', w, 'out')
+      ch.append((cn, a, k_, b))
+    def cblk(cn, asgs):
+      bid = d.new_id()
+      d.blocks.append({'id': bid, 'name': f'blk_{bid}', 'comp': cn, 'kind': 'comb', 'asgs': asgs, 'styles': {}})
+    # an upstream block drives every child's k: every child block is then a BFS root of the intra-SCC order
+    kasgs = [((k_.idx, 0, w), fn1(rng, w, R(ins[3]))) for (_, _, k_, _) in ch]
+    if rng.random() < 0.5: blk(kasgs)
+    else:
+      for a_ in kasgs: blk([a_])
+    order = list(range(nch)); rng.shuffle(order)
+    for j in order:
+      cn, a, k_, b = ch[j]
+      pb = ch[(j - 1) % nch][3]
+      # child 0 closes the block-level loop: its high half comes from the last child's high half, which depends on low halves only
+      hi_src = R(pb, h, w - h) if j == 0 else R(pb, 0, w - h)
+      asgs = [((a.idx, h, w - h), hi_src), ((a.idx, 0, h), R(ins[j % 3], 0, h))]
+      if rng.random() < 0.5: asgs.reverse()
+      blk(asgs)
+    corder = list(range(nch)); rng.shuffle(corder)
+    for j in corder:
+      cn, a, k_, b = ch[j]
+      cblk(cn, [((b.idx, 0, w), ('b', 'xor', w, R(a), R(k_)))])
+    blk([((out.idx, 0, w), ('b', 'xor', w, R(ch[-1][3]), R(ch[0][3])))])
+    expect = 'value'
   elif kind == 'div':
     a = d.new_sig('', 'a', w, 'wire'); b = d.new_sig('', 'b', w, 'wire')
     if rng.random() < 0.5:
@@ -238,7 +279,7 @@ def run(ck):
   n = 250 if ck.tier == 'quick' else 8000
   lines, meta = [], []
   for _ in range(n):
-    kind = rng.choice(['false', 'false', 'conv', 'ring', 'ring', 'div', 'divcond', 'bigring', 'structloop'])
+    kind = rng.choice(['false', 'false', 'conv', 'ring', 'ring', 'div', 'divcond', 'bigring', 'structloop', 'hostloop', 'hostloop'])
     d, expect = gen_cyclic(rng, kind)
     src = d.source()
     ck.extra_cov.setdefault('sample_design_source', src)
@@ -308,7 +349,7 @@ def run(ck):
       if kind == 'div' and status == 'ok':
         ck.violation('divergent-loop-returned', {'flow': flow}, {'source': src, 'flow': flow, 'inputs': cycles, 'signals': [s_.path for s_ in d.sigs]},
                      {'trace': trace[:2], 'oracle': 'a loop with no stable assignment must raise UpblkCyclicError'})
-      if kind in ('false', 'conv', 'ring', 'bigring', 'structloop') and status != 'ok':
+      if kind in ('false', 'conv', 'ring', 'bigring', 'structloop', 'hostloop') and status != 'ok':
         ck.violation('convergent-loop-rejected', {'flow': flow, 'kind': kind}, {'source': src, 'flow': flow, 'inputs': cycles, 'signals': [s_.path for s_ in d.sigs]}, {'status': status})
       lines.append(rtlgen.model_sim_line(d, entries, [], cycles))
       meta.append(('sim', d, src, flow, entries, cycles, trace, status))
